@@ -121,7 +121,8 @@ def eval_redirect(case):
         out.append(("C15/target-not-in-input", "infer_redirection(%r, recursive=False)=%r is neither the input nor an embedded target" % (x, t)))
     # fixed point: iterate the single step
     cur, steps = x, 0
-    while steps < 64:
+    cap = max(64, len(x) + 2)   # every genuine step yields a strictly shorter string, so len(x) bounds the chain
+    while steps < cap:
         s3, nxt = _call(infer_redirection, cur, recursive=False)
         if s3 != "ok":
             out.append(("C15/raises", "single step on %r: %s %r" % (cur, s3, nxt)))
@@ -131,7 +132,7 @@ def eval_redirect(case):
         cur = nxt
         steps += 1
     else:
-        out.append(("C15/termination", "single-step iteration from %r did not converge in 64 steps (at %r)" % (x, cur)))
+        out.append(("C15/termination", "single-step iteration from %r did not converge in %d steps (at %r)" % (x, cap, cur)))
         return out
     if cur != r:
         out.append(("C15/fixed-point", "infer_redirection(%r)=%r but iterating the single step converges to %r after %d steps" % (x, r, cur, steps)))
